@@ -524,10 +524,17 @@ int __wrap_timerfd_create(int clockid, int flags)
     return fd;
 }
 
+/* a wait inside a call on a non-blocking socket is recorded - and then cut short (100 ms), so that the harness survives
+   to report it instead of hanging with the library */
+#define SHIM_WAIT_CAP_MS 100
+
 int __wrap_poll(struct pollfd *fds, nfds_t n, int timeout)
 {
-    if (nb_watch && in_lib && timeout != 0)
+    if (nb_watch && in_lib && timeout != 0) {
 	wait_seen++;
+	if (timeout < 0 || timeout > SHIM_WAIT_CAP_MS)
+	    timeout = SHIM_WAIT_CAP_MS;
+    }
     int r = __real_poll(fds, n, timeout);
     int e = errno;
     ev("poll", n > 0 ? fds[0].fd : -1, timeout, r, r < 0 ? e : 0);
@@ -538,24 +545,35 @@ int __wrap_poll(struct pollfd *fds, nfds_t n, int timeout)
 int __real_epoll_wait(int, struct epoll_event *, int, int);
 int __wrap_epoll_wait(int epfd, struct epoll_event *evs, int max, int timeout)
 {
-    if (nb_watch && in_lib && timeout != 0)
+    if (nb_watch && in_lib && timeout != 0) {
 	wait_seen++;
+	if (timeout < 0 || timeout > SHIM_WAIT_CAP_MS)
+	    timeout = SHIM_WAIT_CAP_MS;
+    }
     return __real_epoll_wait(epfd, evs, max, timeout);
 }
 
 int __real_ppoll(struct pollfd *, nfds_t, const struct timespec *, const sigset_t *);
 int __wrap_ppoll(struct pollfd *fds, nfds_t n, const struct timespec *ts, const sigset_t *ss)
 {
-    if (nb_watch && in_lib && (ts == NULL || ts->tv_sec != 0 || ts->tv_nsec != 0))
+    struct timespec cap = { 0, SHIM_WAIT_CAP_MS * 1000000L };
+    if (nb_watch && in_lib && (ts == NULL || ts->tv_sec != 0 || ts->tv_nsec != 0)) {
 	wait_seen++;
+	if (ts == NULL || ts->tv_sec > 0 || ts->tv_nsec > cap.tv_nsec)
+	    ts = &cap;
+    }
     return __real_ppoll(fds, n, ts, ss);
 }
 
 int __real_select(int, fd_set *, fd_set *, fd_set *, struct timeval *);
 int __wrap_select(int n, fd_set *r, fd_set *w, fd_set *x, struct timeval *tv)
 {
-    if (nb_watch && in_lib && (tv == NULL || tv->tv_sec != 0 || tv->tv_usec != 0))
+    struct timeval capv = { 0, SHIM_WAIT_CAP_MS * 1000 };
+    if (nb_watch && in_lib && (tv == NULL || tv->tv_sec != 0 || tv->tv_usec != 0)) {
 	wait_seen++;
+	if (tv == NULL || tv->tv_sec > 0 || tv->tv_usec > capv.tv_usec)
+	    tv = &capv;
+    }
     return __real_select(n, r, w, x, tv);
 }
 
